@@ -43,6 +43,9 @@ type Prog struct {
 // types/gen, 12 typed packages, util, _example is skipped by the go tool).
 const minPackages = 23
 
+// overlays: original path -> replacement file (debug/audit only: -overlay flag)
+var overlays = map[string]string{}
+
 func loadProg(dir string) (*Prog, error) {
 	if os.Getenv("GOWORK") != "" && os.Getenv("GOWORK") != "off" {
 		return nil, fmt.Errorf("GOWORK must be unset")
@@ -53,6 +56,16 @@ func loadProg(dir string) (*Prog, error) {
 		Dir:   dir,
 		Env:   env,
 		Tests: false,
+	}
+	if len(overlays) > 0 {
+		cfg.Overlay = map[string][]byte{}
+		for orig, repl := range overlays {
+			data, err := os.ReadFile(repl)
+			if err != nil {
+				return nil, fmt.Errorf("overlay %s: %v", repl, err)
+			}
+			cfg.Overlay[orig] = data
+		}
 	}
 	pkgs, err := packages.Load(cfg, "./...")
 	if err != nil {
